@@ -302,10 +302,13 @@ Print Assumptions C16_src_add_accepts.
 (** the conversions with the iteration sources, the label rule and the cut rule read from the source are the hand-written ones *)
 Theorem C16_src_conversions_are_model :
   (forall c, src_to_dataframe gen_df_rows_from gen_col_rule c = to_dataframe c)
-  /\ (forall t, src_from_dataframe gen_split_rule t = from_dataframe t)
+  /\ (forall t, src_from_dataframe gen_types gen_add gen_split_rule t = from_dataframe t)
+  /\ (forall ids d, src_from_pytorch gen_types gen_add ids d = from_pytorch ids d)
   /\ (forall rnd c, src_to_pytorch rnd gen_torch_iter c = to_pytorch rnd c)
   /\ (forall c ids, src_subset gen_types gen_add gen_subset_rule c ids = subset c ids)
-  /\ (forall p, src_load_format gen_load_dispatch p = load_format p).
+  /\ (forall p, src_load_format gen_load_dispatch p = load_format p)
+  /\ (forall c p, src_save_target gen_save_rule c p = save_target c p)
+  /\ (forall c, src_csv_roundtrip gen_types gen_add gen_df_rows_from gen_col_rule gen_split_rule c = csv_roundtrip c).
 Proof. exact gen_conversions_are_model. Qed.
 Print Assumptions C16_src_conversions_are_model.
 
@@ -315,7 +318,7 @@ Theorem C16_src_torch_roundtrip : forall (rnd : Q -> Q) (c : container) (sh : sh
   src_to_pytorch rnd gen_torch_iter c = Ok (indices c, torch_dict rnd c sh)
   /\ map fst (torch_dict rnd c sh) = map fst sh
   /\ Forall (fun kt => List.length (snd kt) = List.length (indices c)) (torch_dict rnd c sh)
-  /\ from_pytorch (map IdStr (indices c)) (map (fun kt => (fst kt, T2 (snd kt))) (torch_dict rnd c sh))
+  /\ src_from_pytorch gen_types gen_add (map IdStr (indices c)) (map (fun kt => (fst kt, T2 (snd kt))) (torch_dict rnd c sh))
      = Ok (vec_container rnd c sh).
 Proof. exact gen_torch_roundtrip. Qed.
 Print Assumptions C16_src_torch_roundtrip.
@@ -331,10 +334,17 @@ Proof. split; [exact src_to_pytorch_dict_order | exact dict_order_differs]. Qed.
 Theorem C16_src_table_roundtrip_partial : forall (c : container) (sh : shapes_t),
   wf c -> shapes c = Some sh -> table_safe sh ->
   src_to_dataframe gen_df_rows_from gen_col_rule c = Ok (table_of c sh)
-  /\ src_from_dataframe gen_split_rule (table_of c sh) = Ok (vec_container (fun q => q) c sh)
+  /\ src_from_dataframe gen_types gen_add gen_split_rule (table_of c sh) = Ok (vec_container (fun q => q) c sh)
   /\ map (fun ps => (fst ps, [size_of_shape (snd ps)])) sh = sh.
 Proof. exact gen_table_roundtrip. Qed.
 Print Assumptions C16_src_table_roundtrip_partial.
+
+Theorem C16_src_csv_roundtrip_partial : forall (c : container) (sh : shapes_t),
+  wf c -> shapes c = Some sh -> table_safe sh ->
+  Forall (fun ps => fst ps <> "") sh -> Forall (fun i => ~ In i na_tokens) (indices c) ->
+  src_csv_roundtrip gen_types gen_add gen_df_rows_from gen_col_rule gen_split_rule c = Ok (vec_container (fun q => q) c sh).
+Proof. exact gen_csv_roundtrip. Qed.
+Print Assumptions C16_src_csv_roundtrip_partial.
 
 Theorem C16_src_scalar_refuted :
   exists c, add_all empty [(IdStr "index-1", ArgDict [("xi", VAtom (ANum KFloat (1 # 10))); ("tau", VAtom (ANum KInt 70));
@@ -346,7 +356,7 @@ Print Assumptions C16_src_scalar_refuted.
 Theorem C16_src_underscore_refuted :
   exists c t c', add_all empty [(IdStr "a", ArgDict [("random_intercept", VList [ANum KFloat (1 # 2)]);
                                                      ("random_slope_age", VList [ANum KFloat (1 # 4)])])] = Ok c
-    /\ src_to_dataframe gen_df_rows_from gen_col_rule c = Ok t /\ src_from_dataframe gen_split_rule t = Ok c'
+    /\ src_to_dataframe gen_df_rows_from gen_col_rule c = Ok t /\ src_from_dataframe gen_types gen_add gen_split_rule t = Ok c'
     /\ shapes c' = Some [("random", [2%nat])].
 Proof. exact gen_underscore_refuted. Qed.
 Print Assumptions C16_src_underscore_refuted.
